@@ -16,7 +16,7 @@ def main(tier, n=None):
     allst = sched.ALL_STRATS
     plan = [("live", 900, 60000, sched.CHEAP_STRATS, 8), ("wide", 500, 30000, sched.CHEAP_STRATS, 10), ("live", 250, 15000, list(sched.schedsim.LINE_STRATEGIES), 7),
             ("live", 200, 10000, ["at-waitpid-pid", "at-waitpid-pid-some", "in-fork", "in-fork-some"], 8)]
-    rep, code = S.run(PROP, tier, "exploration", RULE, plan, ["c09_runs", "c09_outcome_checks", "c09_sigchld_deliveries", "c09_runs_with_batched_exits"], n)
+    rep, code = S.run(PROP, tier, "exploration", RULE, plan, ["c09_runs", "c09_outcome_checks", "c09_sigchld_deliveries", "c09_runs_with_batched_exits", "e1_runs", "c09_e1_sigstop_batches"], n, e1=("live", 60, 1500, 7))
     return code
 
 
